@@ -96,6 +96,7 @@ private:
 
   void                 prepare_process_unordered(queues_type::iterator itr);
   void                 delay_process_unordered();
+  void                 reset_process_unordered();
 
   Delegator*           m_delegator{};
   PeerChunks*          m_peer_chunks{};
